@@ -104,6 +104,11 @@ def strip(t, extra=()):
         if t[0] == "cast":
             t = t[2]
             continue
+        if t[0] == "call" and t[1].name in ("unwrap", "expect") and t[2] and isinstance(t[2][0], tuple) and t[2][0] and \
+                t[2][0][0] == "call" and t[2][0][1].name in ("try_from", "try_into") and len(t[2][0][2]) == 1:
+            # a checked numeric conversion that refuses instead of truncating (`u64::try_from(x).expect(..)` for `x as u64`)
+            t = t[2][0][2][0]
+            continue
         break
     return t
 
@@ -312,6 +317,17 @@ def expand(t):
             if all(e is not None for e in els):
                 return arr[:4] + (tuple(els),) + tuple(arr[5:])
         return None
+    if c.name in ("unwrap", "expect", "unwrap_unchecked") and a and ("ption" in (c.def_ or "")) and mir.is_call(strip(a[0])):
+        # `checked_variant(args).expect(..)`: the one payload the checked variant of a crate function returns
+        inner = strip(a[0])
+        ic = inner[1]
+        if ic.local or getattr(ic, "res_local", False):
+            hs = [h for h in prog.resolve(ic) if "{closure" not in h.npath]
+            if len(hs) == 1 and hs[0].terms.ret is not None:
+                outs = canon.option_outcomes(prog, hs[0].terms, hs[0].terms.ret)
+                if outs is not None and len(outs) == 1 and not canon.has_unknown(outs[0]):
+                    return canon.subst(outs[0], {i + 1: x for i, x in enumerate(inner[2])})
+        return None
     if c.local or getattr(c, "res_local", False):
         hs = [h for h in prog.resolve(c) if "{closure" not in h.npath]
         if len(hs) == 1 and hs[0].terms.ret is not None:
@@ -352,7 +368,19 @@ class Mentions:
         return "f(%s)" % ", ".join(repr(s_) for s_ in self.subs)
 
 
+class Alt:
+    """pattern: either of the given patterns (an entry point or the worker it forwards to, with the entry's constants)"""
+    def __init__(self, *alts):
+        self.alts = alts
+
+    def __repr__(self):
+        return " | ".join(repr(a) for a in self.alts)
+
+
 def _match1(pat, t, extra_strip=()):
+    if isinstance(pat, Alt):
+        rs = [match(a, t, extra_strip) for a in pat.alts]
+        return None if any(r is None for r in rs) else rs[0]
     if isinstance(pat, Mentions):
         from . import mir as _mir
         subs = [t] + list(_mir.subterms(t))
